@@ -39,7 +39,7 @@ _reg('C03', [pairs.rule_c03_r1, pairs.rule_c03_r2, pairs.rule_c03_r3, extra.rule
      "induction over converter trees (sub-converters are assumed to agree). It does NOT decide full logical equivalence "
      "of the two passes (atom sets and polarity are compared, not the and/or structure), nor user-written converters.")
 
-_reg('C04', [escape.rule_c04_r1, escape.rule_c04_r2, escape.rule_c04_r3, escape.rule_c04_r4, pairs.rule_c03_r1, dispatch.rule_c01_r1],
+_reg('C04', [escape.rule_c04_r1, escape.rule_c04_r2, escape.rule_c04_r3, escape.rule_c04_r4, pairs.rule_c03_r1, dispatch.rule_c01_r1, escape.rule_c04_r5],
      "Decides the structural clause of C04 by an exception-escape analysis: every may-raise source in the conversion zone "
      "(opaque user callables and stdlib parsers, data-keyed table lookups incl. unhashable keys, hashed stores with computed keys, "
      "explicit raises) is covered by a handler that turns it into ParseInterrupt / an error node, at the source or at every call site of "
